@@ -127,6 +127,7 @@ type Peer struct {
 	RawIn             [][]byte // every record received, as on the wire (header and body)
 	RecLens           []int    // plaintext length of every protected record received
 	Fragment          int      // >0: cut outgoing handshake messages into records of at most this many bytes
+	Coalesce          bool     // pack consecutive handshake messages of a flight into one record
 
 	// renegotiation (RFC 5746)
 	ClientVerify, ServerVerify []byte                     // verify_data of the Finished messages seen last (own computed, peer's as verified)
@@ -1060,12 +1061,40 @@ func (p *Peer) sendFlight(s *Script, n int, items []Item) error {
 	if s.Mutate != nil {
 		items = s.Mutate(n, items)
 	}
+	var pend []byte
+	flush := func() error {
+		b := pend
+		pend = nil
+		for off := 0; off < len(b); off += 16384 {
+			end := off + 16384
+			if end > len(b) {
+				end = len(b)
+			}
+			if err := p.WriteRecord(RecHS, b[off:end]); err != nil {
+				return err
+			}
+		}
+		return nil
+	}
 	for _, it := range items {
+		if p.Coalesce && it.Rec == RecHS && !it.Raw && !it.Fragment {
+			m := it.Build(p)
+			if len(m) > 0 && m[0] == HSFinished {
+				p.SentFinished = true
+			}
+			p.Transcript = append(p.Transcript, m...)
+			p.Sent = append(p.Sent, it.Name)
+			pend = append(pend, m...)
+			continue
+		}
+		if err := flush(); err != nil {
+			return err
+		}
 		if err := p.Send(it); err != nil {
 			return err
 		}
 	}
-	return nil
+	return flush()
 }
 
 // ClientFlight1 is the honest second client flight given what the server asked for.
